@@ -96,6 +96,10 @@ CALLS = {
     'core_qtt_to_tt': lambda: (teneva.core_qtt_to_tt, (teneva.core_tt_to_qtt(T4[1]),), {}),
     'core_qtt_to_tt_q1': lambda: (teneva.core_qtt_to_tt, ([np.arange(8.).reshape(2, 2, 2)],), {}),
     'core_stab': lambda: (teneva.core_stab, (tt()[1] * 100,), {}),
+    'core_stab_p0': lambda: (teneva.core_stab, (np.array([[[1.5, -0.25], [0.5, 1.0]]]),), {}),
+    'core_stab_ones': lambda: (teneva.core_stab, (np.ones((2, 3, 2)), 4), {}),
+    'core_stab_small': lambda: (teneva.core_stab, (tt()[1] * 1e-3,), {}),
+    'core_stab_tiny': lambda: (teneva.core_stab, (tt()[1] * 1e-120,), {}),
     'core_tt_to_qtt': lambda: (teneva.core_tt_to_qtt, (T4[1].copy(),), {}),
     'cross': lambda: (teneva.cross, (_f_cross, tt(r=1, seed=8)), dict(nswp=2, info={}, cache={})),
     'cross_vld': lambda: (teneva.cross, (_f_cross, tt(r=1, seed=8)), dict(nswp=2, info={}, I_vld=I0[:9].copy(), y_vld=y0[:9].copy())),
@@ -178,7 +182,8 @@ CALLS = {
     'vector_delta': lambda: (teneva.vector_delta, (3, -2, 2.), {}),
 }
 
-PASS_THROUGH = {'grid_prep_opt', 'grid_prep_opts', 'core_stab'}
+# documented pass-through helpers (by call variant: core_stab only below its threshold)
+PASS_THROUGH = {'grid_prep_opt', 'grid_prep_opts', 'core_stab_tiny'}
 # deliberately filled dictionaries
 FILL_KEYS = {'info', 'cache'}
 # exported names that cannot run in this sandbox (with the reason) or are not functions with results
